@@ -251,6 +251,19 @@ fn check_integer(m: u128, s: u32, neg: bool, out: &mut WorkerOut) {
     } else {
         "integral"
     };
+    {
+        // float() of the same number: the double nearest to the number given (what reading its
+        // digits gives), whatever the scale, never a neighbour of it
+        out.evals += 1;
+        let text = format!("{}{}", if neg { "-" } else { "" }, crate::model::dec::render(false, m, s));
+        let want: f64 = text.parse().unwrap();
+        match guarded(|| Value::Number(d).float().map_err(|e| format!("{:?}", e))) {
+            Res::Ok(f) if f.to_bits() == want.to_bits() || (f == 0.0 && want == 0.0) => out.count("validated", 1),
+            Res::Ok(f) => out.fail(format!("float:another-number:{}", if s > 22 { "scale>22" } else if m >= (1u128 << 53) { "mantissa>=2^53" } else { "small" }), format!("integer|{}.float()", d), format!("expected {:e} (the double nearest to {}), got {:e}", want, text, f)),
+            Res::Err(e) => out.fail("float:rejects-number", format!("integer|{}.float()", d), e),
+            Res::Panic(msg) => out.fail(format!("panic:float:{}", normalise_panic(&msg)), format!("integer|{}.float()", d), msg),
+        }
+    }
     let got = guarded(|| Value::Number(d).integer().map_err(|e| format!("{:?}", e)));
     match (want, got) {
         (_, Res::Panic(msg)) => out.fail(format!("panic:integer:{}", normalise_panic(&msg)), case, msg),
